@@ -39,6 +39,7 @@ def corpus(tier, seed):
         std_spec("nonuni2", s + 28, 20, prior_sampling=True, resume_after_done=1),
         std_spec("rect2", s + 29, 50, reparameterisations={"c": "rescaletobounds"}, kills=[200]),
         std_spec("disc2", s + 30, 25, max_iteration=100),
+        std_spec("rect3", s + 31, 50, reparameterisations={"q": "rescaletobounds"}, kills=[220]),
     ]
     if tier == "thorough":
         k = 11
@@ -66,6 +67,7 @@ def ins_corpus(tier, seed):
         ins_spec("uprior2", s + 9, 100, max_iteration=4),         # prior not uniform in the unit hypercube
         ins_spec("offvlow2", s + 10, 100, max_iteration=3),       # ln L ~ -2e4: exp(ln Z) underflows long double
         ins_spec("rect2", s + 11, 100, max_iteration=4),          # different bounds per parameter, names not sorted
+        ins_spec("rect3", s + 13, 100, max_iteration=4, draw_iid_live=False),
         ins_spec("disc2", s + 12, 100, max_iteration=3, kills=[300]),   # prior -inf inside the unit hypercube
     ]
     if tier == "thorough":
